@@ -292,13 +292,14 @@ def run(ctx):
                 if fc[0] != "cmp":
                     continue
                 for op, x, y in ((fc[1], fc[2], fc[3]), (A.SWAP[fc[1]], fc[3], fc[2])):
-                    if op in ("Gt", "Ge") and bool(Call("len", Path("param1.octets"))(x)):
-                        ly = P.lin(y)
-                        rest = {k: v for k, v in ly[0].items() if k != "param1.position"}
-                        if ly[0].get("param1.position") == 1:
-                            # smallest number of remaining octets that satisfies the guard
-                            extra = ly[1] + (1 if op == "Gt" else 0)
-                            need = (extra, tuple(sorted(rest.items())))
+                    if op not in ("Gt", "Ge"):
+                        continue
+                    # any arrangement of `len`, `position` and the count around the comparison: x - y >= 0 (or > 0)
+                    dlin = P.sub(P.lin(x), P.lin(y))
+                    co = dict(dlin[0])
+                    if co.pop("len(param1.octets)", None) == 1 and co.pop("param1.position", None) == -1:
+                        extra = -dlin[1] + (1 if op == "Gt" else 0)          # smallest number of remaining octets that satisfies the guard
+                        need = (extra, tuple(sorted((k, -v) for k, v in co.items())))
         want = (width, ()) if width is not None else (0, (("param2", 1),))
         ok = need == want or (need is None and not somes and False)
         # `octets.get(position)?` needs no explicit comparison
